@@ -43,11 +43,18 @@ def expected_status(properties, resource, propel, removing):
 @contract("xandikos.webdav.apply_modify_prop",
           params={"el": "opaque:Element", "href": "str", "resource": "opaque:Resource", "properties": "opaque:Registry"},
           returns="list[tuple[str,opt[str],opaque:XmlOut]]", yields="tuple[str,opt[str],opaque:XmlOut]",
-          may_raise=["BadRequestError", "AssertionError", "ValueError"],
           locals={"statuscode": "str"})
 class apply_modify_prop_real_c:
     def requires(el):
         return el.tag == "{DAV:}set" or el.tag == "{DAV:}remove"
+
+    def raises_ValueError(el):
+        # `[requested] = el` with no or several children (the IndexError the code catches is
+        # never raised by an unpacking): the caller answers 500
+        return len(el) != 1
+
+    def raises_BadRequestError(el):
+        return len(el) == 1 and el[0].tag != "{DAV:}prop"
 
     def ensures(el, resource, properties, result):
         props = el[0]
